@@ -80,12 +80,12 @@ SPECS = {
         "assumptions": ["corruptions are single points (and seeded pairs) applied to arrays the writer produced; lengths are only changed by small amounts so that every row can be read", "fixed-size list positions idx*n are computed without overflow in the model (usize overflow needs a view whose declared length exceeds 2^32 rows)", "reads go through deserialize_any; typed requests share the same accessors (ViewAccess::get, offsets, bitset_is_set)"],
     },
     "C07": {
-        "id": "C07", "runners": ["RunC07"],
+        "id": "C07", "runners": ["RunC07"], "translators": [translate.tracer_tables],
         "info_meaning": "[cases compared with the tracer model; cases whose tracing succeeded]",
         "assumptions": ["strings are classified for guess_dates by the in-crate matchers (modelled); strategies of sampled leaves are always absent", "schema equality in the order law is up to the order of struct fields that are not map-sorted (first-seen order is allowed by the property)"],
     },
     "C06": {
-        "id": "C06", "runners": ["RunC01"],
+        "id": "C06", "runners": ["RunC01"], "translators": [translate.tracer_tables],
         "info_meaning": "[cases whose traced schema is inside the builder model; cases fully judged by decode = interp]",
         "assumptions": ["documented exclusions are not counted: sample strings that only look like dates under guess_dates, unsigned values above the signed 64-bit range mixed with signed numbers under coerce_numbers, null for an enum-typed position", "the tracer model itself is compared with the crate in the C07/C08 runs (RunC07)"],
     },
@@ -111,7 +111,7 @@ SPECS = {
         "assumptions": ["the harness is built with overflow-checks and debug-assertions on, so arithmetic overflow is a panic", "a call taking more than 5 s counts as unbounded running; the whole run has a watchdog"],
     },
     "C08": {
-        "id": "C08", "runners": ["RunC08"],
+        "id": "C08", "runners": ["RunC08"], "translators": [translate.tracer_tables],
         "info_meaning": "[type x option-set cases; overwrite cases]",
         "assumptions": ["the zoo samples serde_derive (which Deserialize / Serialize calls a derived impl makes); it does not verify it", "from_type itself (the multi-pass exploration with a budget) is not modelled: it is compared with the documented mapping and with from_samples on covering samples", "from_type cannot trace maps as structs (documented error); from_samples sorts such fields: the two are not compared for map types under map_as_struct"],
     },
